@@ -461,6 +461,19 @@ func c07Prefixes(w *core.W, j int) {
 	}
 }
 
+// c07CommentBoundary: comments of n octets at the places where the lexer carries a comment over
+// (inside parentheses across lines, after tokens, before and after blanks), followed by more
+// comments; token and string lengths of n octets as well.
+func c07CommentBoundary(n int) string {
+	c := strings.Repeat("c", n)
+	t := strings.Repeat("t", n)
+	return "a.example. 60 IN TXT ( ;" + c + "\n\tx ;second\n\ty ;" + c + "\n ;third\n z ) ; " + c + "\n" +
+		"b.example. 60 IN TXT ( \"q\" ;" + c[:n/2] + "\n ;" + c + "\n\t\"r\" ;x\n) ;y\n" +
+		";" + c + "\n;" + c + "\n" +
+		"c.example. 60 IN TXT " + t + " ;" + c + "\n" +
+		"d.example. 60 IN TXT \"" + t[:n%256] + "\" ( ;" + c + "\n ;" + c + "\n)\n"
+}
+
 func c07Crafted(w *core.W, j int) {
 	r := w.Rng(j)
 	cfg := c07Cfgs(j, r)
@@ -491,6 +504,9 @@ func c07Crafted(w *core.W, j int) {
 		{"generate-negative", "$ORIGIN example.\n$GENERATE -5-5 h$ 300 IN A 127.0.0.1\n"},
 		{"generate-bad-modifier", "$ORIGIN example.\n$GENERATE 0-3 h${0,300,d} 300 IN A 127.0.0.1\n$GENERATE 0-3 h${ 300 IN A 127.0.0.1\n"},
 		{"generate-wide-modifier", "$ORIGIN example.\n$GENERATE 0-3 host 300 IN TXT ${0,3000000,d}\n"},
+		{"comment-buffer-boundary", c07CommentBoundary(510)}, {"comment-buffer-boundary", c07CommentBoundary(511)}, {"comment-buffer-boundary", c07CommentBoundary(512)},
+		{"comment-buffer-boundary", c07CommentBoundary(513)}, {"comment-buffer-boundary", c07CommentBoundary(1023)}, {"comment-buffer-boundary", c07CommentBoundary(1024)},
+		{"comment-buffer-boundary", c07CommentBoundary(2047)}, {"comment-buffer-boundary", c07CommentBoundary(2048)}, {"comment-buffer-boundary", c07CommentBoundary(5000)},
 		{"generate-wide-modifier", "$ORIGIN example.\n$GENERATE 0-3 host 300 IN TXT ${0,256}\n$GENERATE 0-3 host 300 IN TXT ${0,65535,x}\n"},
 		{"generate-wide-modifier", "$ORIGIN example.\n$GENERATE 0-9 host 300 IN TXT \"${0,255,d}${1,255,o}${2,255,X}\" ${0,30000000,d}\n"},
 		{"generate-offset-overflow", "$ORIGIN example.\n$GENERATE 0-3 h${9223372036854775807,1,d} 300 IN A 127.0.0.1\n"},
